@@ -38,7 +38,7 @@ DESCS = ["scalar", "two", "array", "constdim", "attrs", "xobj", "falsy"]
 def cases(tier, seed):
     farmers = ["runner", "runner-df", "harv-jl", "harv-h5", "sampler"]
     inputs = [("grid", 6), ("cases", 4), ("mix", 6), ("grid", 8), ("cases", 1),
-              ("grid", 1)]
+              ("grid", 1), ("mix2", 12)]
     reqs = [("batchsize", 2), ("num_batches", 3), ("default", None),
             ("batchsize", 5)]
     for desc, far, (kind, n), (mode, req), shuffle, rl in itertools.product(
@@ -61,6 +61,8 @@ def cases(tier, seed):
             yield {"desc": desc, "farmer": far, "kind": kind, "n": n,
                    "mode": mode, "req": req, "shuffle": shuffle, "reload": rl,
                    "policy": pol}
+            if kind == "mix2":
+                continue
             if pol in (None, (None, None), (None, "disjoint")) and (
                     tier == "thorough" or h == 3):
                 yield {"desc": desc, "farmer": far, "kind": kind, "n": n,
@@ -222,7 +224,13 @@ def check_case(case):
     from xyzpy.gen.cropping import grow
 
     desc, far, kind, n = case["desc"], case["farmer"], case["kind"], case["n"]
-    combos, fn_args, cs = build_inputs(n, kind)
+    if kind == "mix2":
+        # a case list next to a sub-grid over two arguments that are not in
+        # alphabetical order, sown through sow_cases
+        combos, fn_args, cs = ([["z", [1, 2, 3]], ["c", [10, 20]]],
+                               ["a", "b"], [[3, 7], [1, 2]])
+    else:
+        combos, fn_args, cs = build_inputs(n, kind)
     argnames = list(fn_args or []) + [a for a, _ in (combos or [])]
     fkind, rkw, extra = describe(desc, argnames)
     defaults = {e: None for e in extra}
@@ -408,6 +416,11 @@ def check_case(case):
                             cases=[dict(zip(fn_args, c)) for c in dcases],
                             shuffle=case["shuffle"], verbosity=0,
                             constants=case.get("sowconst"))
+        elif kind == "mix2":
+            crop.sow_cases(fn_args, dcases, verbosity=0,
+                           combos=tuple((a, list(v))
+                                        for a, v in dcombos.items()),
+                           constants=case.get("sowconst"))
         else:
             crop.sow_cases(fn_args, dcases, verbosity=0,
                            constants=case.get("sowconst"))
@@ -448,7 +461,8 @@ def check_case(case):
         vio.append((key("result"), "reaped vs direct: %s" % why))
     rfar = rcrop.farmer
     last = (rfar.last_df if far == "sampler" else
-            (rfar.runner if far.startswith("harv") else rfar)._last_df
+            getattr(rfar.runner if far.startswith("harv") else rfar,
+                    "_last_df", None)
             if far == "runner-df" else rfar.last_ds)
     if last is not got:
         vio.append((key("last"), "the farmer's last result is not the reaped "
